@@ -5,7 +5,7 @@
 #   the demo fails with the change. Prints a JSON line with the three outcomes.
 set -u
 ID="$1"; N="$2"; shift 2
-W=/tmp/mut/$ID
+W=${MUT_ROOT:-/tmp/mut}/$ID
 cd "$W" || exit 2
 export CARGO_NET_OFFLINE=true
 git checkout -q -- src
